@@ -82,6 +82,9 @@ def obligations(tier, seed):
         if mx + 1 < (1 << 64): facts.append(('rep_%s_max1' % rep, 'au::representable_in<%s>(au::mag<%dULL>())' % (CT[rep], mx + 1), 0))
         facts.append(('rep_%s_frac' % rep, 'au::representable_in<%s>(au::mag<3>() / au::mag<2>())' % CT[rep], 0))
         facts.append(('val_%s_max' % rep, '(au::get_value<%s>(au::mag<%dULL>()) == %s)' % (CT[rep], mx, ('%dULL' % mx) if mx > (1 << 62) else '%dLL' % mx), 1))
+    # a single PRIME factor just above max(T): the factor must not be narrowed to T before the range check
+    for rep, pr in (('u8', 257), ('i8', 131), ('u16', 65537), ('i16', 32771), ('u32', 4294967311), ('i32', 2147483659)):
+        facts.append(('rep_%s_prime_above' % rep, 'au::representable_in<%s>(au::mag<%dULL>())' % (CT[rep], pr), 0))
     facts += [('rep_u64_2_64', 'au::representable_in<uint64_t>(au::pow<64>(au::mag<2>()))', 0), ('rep_u64_2_63', 'au::representable_in<uint64_t>(au::pow<63>(au::mag<2>()))', 1),
               ('rep_i64_2_63', 'au::representable_in<int64_t>(au::pow<63>(au::mag<2>()))', 0),
               ('rep_f32_2_127', 'au::representable_in<float>(au::pow<127>(au::mag<2>()))', 1), ('rep_f32_2_128', 'au::representable_in<float>(au::pow<128>(au::mag<2>()))', 0),
@@ -110,7 +113,7 @@ def obligations(tier, seed):
                       functions_under_contract=('au::representable_in', 'au::get_value', 'au::is_integer', 'au::is_rational', 'au::numerator', 'au::denominator', 'au::integer_part')))
     # ---- the same boundary facts as supporting static facts (one probe TU each): a hard error or a different answer is attributed to its instance
     HDR = '#include "au/magnitude.hh"\n#include <cstdint>\n#define VF_STATIC_FACT(c) static_assert(c, "VF_STATIC_FACT")\n'
-    sel = facts if tier == 'thorough' else [f for f in facts if f[0].startswith(('rep_u8', 'rep_i8', 'val_u8', 'val_i64_max', 'val_u64', 'rep_f32', 'rep_f64_2', 'rep_u64', 'rep_i64_2', 'val_i16'))]
+    sel = facts if tier == 'thorough' else [f for f in facts if f[0].startswith(('rep_u8', 'rep_i8', 'val_u8', 'val_i64_max', 'val_u64', 'rep_f32', 'rep_f64_2', 'rep_u64', 'rep_i64_2', 'val_i16')) or f[0].endswith('prime_above')]
     for (nm, expr, exp) in sel:
         obs.append(Ob(id='C11.static.%s' % nm, prop='C11', group='C11.static', prelude='', wrappers=[], inputs=[],
                       body=HDR + 'VF_STATIC_FACT((%s) == %s);\nint main() {}\n' % (expr, 'true' if exp else 'false'), kind='S',
